@@ -129,6 +129,19 @@ structure SameExceptCell (σ σ' : Store) (id : Nat) : Prop where
 /-- the initial store of an interpreter: one root frame, no vectors -/
 def root : Store := { frames := #[{ parent := none, defs := [] }] }
 
+/-- demo store. Frame 0 (root): `x ↦ 1`, `v ↦ #0`; frame 1 (child of 0): `x ↦ 2`,
+`f ↦ closure over frame 0`; frame 2 (child of 0): `l ↦ (#0 . #1)`; frame 3 (child of 1).
+Cell #0: mutable `[1, 2]`; cell #1: immutable `[#0]`. -/
+def demo : Store where
+  frames := #[
+    { parent := none, defs := [("x", .num (.int 1)), ("v", .vec 0)] },
+    { parent := some 0, defs := [("x", .num (.int 2)),
+        ("f", .closure (.mk ⟨["a"], none⟩ [] [.sym "x" none]) 0)] },
+    { parent := some 0, defs := [("l", .pair (.vec 0) (.vec 1))] },
+    { parent := some 1, defs := [] }]
+  vecs := #[{ mutable := true, items := [.num (.int 1), .num (.int 2)] },
+            { mutable := false, items := [.vec 0] }]
+
 end Store
 
 /-! ## outcomes of evaluator steps -/
